@@ -25,7 +25,7 @@ class Ob:
     def __init__(self, id, props, tu, roots, harness, entry='harness', spec=None, enforce=None, replace=(),
                  tier='U', unwind=None, unwindset=None, defines=None, cfg='kernel', timeout=300, quick=True,
                  covers=0, expect_loops=(), note='', flags=(), bounds=None, loop_contracts=True, object_bits=12,
-                 expected_fail=(), kissat=False, spec_text='', includes=(), copies=(), stubs=None, inline_vec=False, adaptive_unwind=True, inits=None, prebuild_shape=None, unwind_start=3):
+                 expected_fail=(), kissat=False, spec_text='', includes=(), copies=(), stubs=None, inline_vec=False, adaptive_unwind=True, inits=None, prebuild_shape=None, unwind_start=3, quick_for=None):
         self.id = id; self.props = props; self.tu = tu; self.roots = roots; self.harness = harness; self.entry = entry
         self.mesh_harness = None
         if not isinstance(harness, str):
@@ -34,7 +34,7 @@ class Ob:
         self.unwind = unwind; self.unwindset = unwindset; self.defines = defines or {}; self.cfg = cfg
         self.timeout = timeout; self.quick = quick; self.covers = covers; self.expect_loops = expect_loops
         self.note = note; self.flags = list(flags); self.bounds = bounds or {}; self.loop_contracts = loop_contracts
-        self.object_bits = object_bits; self.expected_fail = expected_fail; self.kissat = kissat; self.spec_text = spec_text; self.includes = list(includes); self.copies = list(copies); self.stubs = stubs or {}; self.inline_vec = inline_vec; self.adaptive_unwind = adaptive_unwind; self.inits = inits or {}; self.prebuild_shape = prebuild_shape; self.unwind_start = unwind_start
+        self.object_bits = object_bits; self.expected_fail = expected_fail; self.kissat = kissat; self.spec_text = spec_text; self.includes = list(includes); self.copies = list(copies); self.stubs = stubs or {}; self.inline_vec = inline_vec; self.adaptive_unwind = adaptive_unwind; self.inits = inits or {}; self.prebuild_shape = prebuild_shape; self.unwind_start = unwind_start; self.quick_for = quick_for
 
 # ---------------------------------------------------------------------------------------------- AST cache
 TUS = {'kernel': 'tu/kernel.cc', 'tethex': 'tu/tethex.cc', 'ovmb': 'tu/ovmb.cc', 'vector': 'tu/vector.cc'}
@@ -336,7 +336,8 @@ def load_obligations(prop, tier):
         if name.startswith('_'): continue
         mod = importlib.import_module('obligations.' + name)
         for ob in mod.obligations():
-            if prop in ob.props and (tier == 'thorough' or ob.quick):
+            qf = ob.quick_for if ob.quick_for is not None else (ob.props if ob.quick else [])
+            if prop in ob.props and (tier == 'thorough' or prop in qf):
                 obs.append(ob)
     return obs
 
